@@ -20,6 +20,11 @@ LIVE_RULE = ("; LIVE stage: the same Watcher construction, but the datagrams are
              "1-4 steps behind; after every drain /proc/self/fdinfo is compared with both tables and WatchList (C12 both "
              "directions) and the kernel-contract monitors K2/K4 run on the recorded stream")
 
+CONC_RULE = ("GENUINE Watchers (NewWatcher / NewBufferedWatcher, nothing replaced): scenarios = buffer sizes x consumer behaviours "
+             "{both, only Events, only Errors, neither, stops midway} x pending {idle, burst beyond capacity, rename-then-"
+             "delete (pending error), kernel queue overflow}; every control call runs under an 8 s watchdog with goroutine "
+             "dump; after Close both channels must be closed, the API inert, nothing received after the close")
+
 PROPS = {
     "C15": {
         "lean": ["FsnVerif.Props.C15"],
@@ -108,6 +113,42 @@ PROPS = {
         "rule": INJECT_RULE + LIVE_RULE,
         "assumptions": ["the kernel's own mark list (/proc/self/fdinfo) is ground truth only at run time (live stage, after every quiescent point)",
                         "K0-K3, K6"],
+    },
+    "C05": {
+        "lean": ["FsnVerif.Props.C05"],
+        "lean_support": ["FsnVerif.Proofs.ProtoLemmas", "FsnVerif.Proofs.ProtoTables", "FsnVerif.Proofs.SkeletonTie", "FsnVerif.Model.Proto", "FsnVerif.Expected.Skeleton"],
+        "stages": [{"name": "conc", "cmd": "conc", "what": "C05"}],
+        "rule": CONC_RULE,
+        "assumptions": ["Go scheduler fair to runnable goroutines; sync.Mutex starvation-free; File.Close wakes a blocked Read (runtime poller)",
+                        "K3: an error can be pending inside handleEvent only when the inotify file is closed (C10.remove_ret)"],
+    },
+    "C06": {
+        "lean": ["FsnVerif.Props.C06"],
+        "lean_support": ["FsnVerif.Proofs.ProtoLemmas", "FsnVerif.Proofs.ProtoTables", "FsnVerif.Proofs.SkeletonTie", "FsnVerif.Model.Proto", "FsnVerif.Expected.Skeleton"],
+        "stages": [{"name": "conc", "cmd": "conc", "what": "C06"}],
+        "rule": CONC_RULE,
+        "assumptions": ["Go channel/select semantics as modelled; runtime poller behaviour on File.Close"],
+    },
+    "C07": {
+        "lean": ["FsnVerif.Props.C07"],
+        "lean_support": ["FsnVerif.Proofs.ProtoLemmas", "FsnVerif.Proofs.ProtoTables", "FsnVerif.Proofs.SkeletonTie", "FsnVerif.Model.Proto", "FsnVerif.Expected.Skeleton"],
+        "stages": [{"name": "conc", "cmd": "conc", "what": "C07"}],
+        "rule": CONC_RULE + "; C07: 2-4 goroutines x 4 calls of Add/Remove/WatchList on 3 directories while another goroutine creates and deletes files in them; every recorded history is checked for linearizability against the set specification (porcupine); Add/Remove racing Close must return nil/ErrClosed/ErrNonExistentWatch only",
+        "assumptions": ["Go memory model / race detector coverage are not Lean objects: data-race freedom of the binary is evidenced, not proved"],
+    },
+    "C13": {
+        "lean": ["FsnVerif.Props.C13"],
+        "lean_support": ["FsnVerif.Props.C06", "FsnVerif.Proofs.ProtoLemmas", "FsnVerif.Proofs.SkeletonTie", "FsnVerif.Model.Proto"],
+        "stages": [{"name": "conc", "cmd": "conc", "what": "C13"}],
+        "rule": CONC_RULE + "; C13: inotify descriptors in /proc/self/fd and readEvents frames in the goroutine dump before/after create-use-close cycles with pending events, concurrent Close, Close racing Add; NewWatcher forced to fail by exhausting fs.inotify.max_user_instances",
+        "assumptions": ["K6: closing the inotify descriptor frees every kernel watch; descriptor release and goroutine termination are the OS's / runtime's (measured)"],
+    },
+    "C14": {
+        "lean": ["FsnVerif.Props.C14"],
+        "lean_support": ["FsnVerif.Model.Chan", "FsnVerif.Proofs.SkeletonTie", "FsnVerif.Proofs.BridgeTables"],
+        "stages": [{"name": "conc", "cmd": "conc", "what": "C14"}],
+        "rule": CONC_RULE + "; C14: 1-8 Watchers with buffers {0,1,2,4,64,4096,65536,3} on one directory, one sequential history, Add/Remove/WatchList/Close churn on the others: event sequences must be identical; cap(Events) read directly; absorb test per size",
+        "assumptions": ["kernel isolation between inotify instances (measured)"],
     },
     "C16": {
         "lean": ["FsnVerif.Props.C16"],
